@@ -14,6 +14,9 @@ T=[
  ("b7-tickdrain-explicit-returns","C13","dfir_pipes/src/pull/symmetric_hash_join.rs",[("        loop {\n            return match pull.as_mut().pull(ctx) {\n                PullStep::Ready((k, v), _meta) => {\n                    state.build(k, Cow::Owned(v));\n                    continue;\n                }\n                PullStep::Pending(_) => std::task::Poll::Pending,\n                PullStep::Ended(_) => std::task::Poll::Ready(()),\n            };\n        }","        loop {\n            match pull.as_mut().pull(ctx) {\n                PullStep::Ready((k, v), _meta) => {\n                    state.build(k, Cow::Owned(v));\n                }\n                PullStep::Pending(_) => return std::task::Poll::Pending,\n                PullStep::Ended(_) => return std::task::Poll::Ready(()),\n            }\n        }")]),
  ("b8-initial-gate-in-local","C30","hydro_lang/src/live_collections/optional.rs",[("        from_previous_tick.or(initial.filter_if(location.optional_first_tick(q!(())).is_some()))","        let first_tick = location.optional_first_tick(q!(())).is_some();\n        let gated = initial.filter_if(first_tick);\n        from_previous_tick.or(gated)")]),
  ("b9-last-released-via-local","C36","hydro_lang/src/sim/runtime.rs",[("            self.last_released = Some(to_release.clone());","            let snap = to_release.clone();\n            self.last_released = Some(snap);")]),
+
+ ("b10-window-lookups-untupled","C17","dfir_lang/src/graph/graph_algorithms.rs",[("            let (u_idx, u_len) = (self.sg_idx[u], self.sg_len[u]);\n            let (v_idx, v_len) = (self.sg_idx[v], self.sg_len[v]);","            let u_idx = self.sg_idx[u];\n            let u_len = self.sg_len[u];\n            let v_len = self.sg_len[v];\n            let v_idx = self.sg_idx[v];")]),
+ ("b12-access-counter-named-steps","C41","hydro_lang/src/compile/ir/mod.rs",[("            let c = count.get() + 1;\n            count.set(c + 1);\n            c","            let group = count.get() + 1;\n            let after = group + 1;\n            count.set(after);\n            group")]),
 ]
 for name,prop,f,edits in T:
     F=REPO+'/'+f; src=open(F).read(); s=src; ok=True
